@@ -258,6 +258,40 @@ def gen_taxonomy():
     return "\n".join(lines) + "\n", info
 
 
+def gen_taxonomy_codes():
+    """The same file as lists of code points, one list per raw line: what the Lean *kernel* computes on
+    (String operations are slow in the kernel). `Gen.taxonomyChars` / `Gen.defaultText` are used both
+    by the default-table theorem of C09 and by the driver."""
+    path = REPO / "paroxython" / "resources" / "taxonomy.tsv"
+    lines = [
+        "-- GENERATED by /verif/translator/gen.py from paroxython/resources/taxonomy.tsv. DO NOT EDIT.",
+        "namespace Paroxy.Gen",
+    ]
+    info = {"source": str(path)}
+    try:
+        raw = path.read_text(encoding="utf-8").split("\n")
+        lines.append("def taxonomyCodesOk : Bool := true")
+        lines.append("/-- One pair (length, packed) per raw line: packed = Σ (code_i + 1) * 2^(21 i). A single big")
+        lines.append("literal per line elaborates, compiles and reduces in the kernel (GMP) quickly. -/")
+        lines.append("def taxonomyPacked : List (Nat × Nat) := [")
+        lines.append(",\n".join(
+            "  (%d, %s)" % (len(l), hex(sum((ord(c) + 1) << (21 * i) for i, c in enumerate(l)))) for l in raw))
+        lines.append("]")
+        info.update(ok=True, lines=len(raw), chars=sum(len(l) for l in raw))
+    except OSError as exc:
+        lines.append("def taxonomyCodesOk : Bool := false")
+        lines.append("def taxonomyPacked : List (Nat × Nat) := []")
+        info.update(ok=False, error=repr(exc))
+    lines.append("def unpackCodes : Nat → Nat → List Nat")
+    lines.append("  | 0, _ => []")
+    lines.append("  | fuel + 1, n => if n = 0 then [] else (n % 2097152 - 1) :: unpackCodes fuel (n / 2097152)")
+    lines.append("def taxonomyCodes : List (List Nat) := taxonomyPacked.map fun p => unpackCodes p.1 p.2")
+    lines.append("/-- The raw lines of the file as character lists. -/")
+    lines.append("def taxonomyChars : List (List Char) := taxonomyCodes.map fun l => l.map Char.ofNat")
+    lines.append("end Paroxy.Gen")
+    return "\n".join(lines) + "\n", info
+
+
 def write_if_changed(path: Path, text: str) -> bool:
     if path.exists() and path.read_text(encoding="utf-8") == text:
         return False
@@ -268,7 +302,8 @@ def write_if_changed(path: Path, text: str) -> bool:
 
 def main():
     report = {}
-    for name, fn in (("CompareSpans", gen_compare_spans), ("Taxonomy", gen_taxonomy)):
+    for name, fn in (("CompareSpans", gen_compare_spans), ("Taxonomy", gen_taxonomy),
+                     ("TaxonomyCodes", gen_taxonomy_codes)):
         text, info = fn()
         info["changed"] = write_if_changed(OUT / f"{name}.lean", text)
         report[name] = info
